@@ -175,9 +175,9 @@ theorem finishRun_subsKept (f : Nat) (s : State) (id : Nat) (old : Option Int) (
   unfold finishRun
   split
   · refine hst.trans ?_
+    refine (SubsKept.of_eq (s' := (storeVal s id old saved v).emit (.changed id)) (fun _ => rfl)).trans ?_
     apply SubsKept.of_markRel
     unfold notifySubs
-    refine MarkRel.trans (MarkRel.emit (e := .changed id) ⟨by intro i; simp, by intro i; simp⟩) ?_
     apply foldl_markRel
     intro s' x
     split
